@@ -460,6 +460,11 @@ def geo_part(chk, pid, rng, n, plan):
         if pid == 'C07' and not cf['W']:
             cf['W'] = rng.choice([1, 2, 3])
         ops = geo_ops(rng, len(inst['path']), cf, plan['kinds'])
+        if pid == 'C09' and i % 3 == 0:
+            # continue-with-distance after an early stop (edge states, a distance cut-off), then re-match
+            cf.update(only_edges=True, max_dist=rng.choice([0.75, 1.0, 1.5]), max_dist_init=None)
+            T = len(inst['path'])
+            ops = [('match', T), ('cwd', T), ('rematch', T)] + ([('widen', cf['W'] + 2)] if cf['W'] else [])
         runs.append(record_geo(100000 + i, inst, cf, ops, rng.random() < 0.4, plan['aux']))
     verdicts = validate(chk, [{k: v for k, v in r.items() if k != 'geo'} for r in runs], {pid}, f'{pid}_geo')
     nontriv = 0
@@ -471,7 +476,8 @@ def geo_part(chk, pid, rng, n, plan):
                           {'kind': 'geo', 'inst': run_['geo']['inst'], 'cf': run_['geo']['cf'],
                            'ops': [[e['op'], e['arg']] for e in run_['events']], 'unique': run_['events'][0]['unique'],
                            'clause': clause, 'at': x['at']}, sig={'clause': clause, 'family': 'geo'})
-    chk.count('real-matcher-runs', evaluations=len(runs), nontrivial=nontriv, traces=len(runs))
+    chk.count('real-matcher-runs', evaluations=len(runs), nontrivial=nontriv, traces=len(runs),
+              continue_with_distance_calls=sum(1 for r in runs for e in r['events'] if e['op'] == 'cwd'))
 
 
 MODEL_GEOMETRY = ('distance-is-not-the-true-nearest-distance', 'distance-fields-inconsistent',
@@ -486,7 +492,7 @@ def model_part(chk, pid, rng, n):
         inst = geom.gen_instance(rng, maxn=6, maxT=5, G=rng.choice([2, 3, 4]))
         cf = geom.gen_config(rng)
         ops = geo_ops(rng, len(inst['path']), cf, ('extend', 'widen') if i % 3 == 0 else ())
-        rec, exc = geom.model_record(200000 + i, inst, cf, ops)
+        rec, exc = geom.model_record(200000 + i, inst, cf, ops, k=(-14 if i % 4 == 1 else 0))
         if rec is None:
             continue
         recs.append(rec)
